@@ -142,7 +142,12 @@ func (x *xerialReader) readChunk(dst []byte) (int, error) {
 
 	if x.decode == nil {
 		x.output, x.input, err = x.input, x.output, nil
-	} else if n, err = snappy.DecodedLen(x.input); n <= len(dst) && err == nil {
+	} else if n, err = snappy.DecodedLen(x.input); err == nil && n > maxDecodedLen(len(x.input)) {
+		// The block announces more bytes than snappy can produce from its
+		// size: it is corrupted, and the decoder must not allocate memory
+		// for the length it claims.
+		n, err = 0, snappy.ErrCorrupt
+	} else if n <= len(dst) && err == nil {
 		// If the output buffer is large enough to hold the decode value,
 		// write it there directly instead of using the intermediary output
 		// buffer.
@@ -157,6 +162,13 @@ func (x *xerialReader) readChunk(dst []byte) (int, error) {
 	}
 
 	return n, err
+}
+
+// maxDecodedLen returns an upper bound of the number of bytes that a snappy
+// block of n bytes may decode to: the densest element of the format is a copy
+// of 64 bytes encoded in 3, the bound leaves a generous margin above that.
+func maxDecodedLen(n int) int {
+	return 64*n + 64
 }
 
 func (x *xerialReader) read(b []byte) (int, error) {
